@@ -606,6 +606,9 @@ def rule_Y14(ctx, rule: str = "Y14") -> None:
 def run(ctx) -> None:
     ctx.rules_run.append("Y14")
     rule_Y14(ctx)
+    from . import jsonrules as _jr
+    ctx.rules_run.append("J10")
+    _jr.rule_J10(ctx)           # enum map values are rendered alike whether held as members (standard) or ints (pydantic)
     from . import presence as _presence
     ctx.rules_run.append("O8")
     _presence.rule_O8(ctx)      # pydantic-style oneof members (optional=True with a group) are members of their group
